@@ -257,6 +257,9 @@ def translate_fn(self, fi, lean, kind):
         if pat[0] != 'pvar':
             raise Unsupported('param pattern')
         ctx.env[pat[1]] = t
+        tyc = (ty or '').replace('&', '').replace('mut ', '').strip()
+        if t in ('nat', 'int') and (tyc in ('$kind', '$ kind') or tyc in generic_names(fi)):
+            ctx.kind_vars = getattr(ctx, 'kind_vars', set()) | {pat[1]}
         binders.append(f'({lname(pat[1])} : {ty_str(t)})')
         ptys.append(t)
     rty_decl = self.rust_ty(fn[3], ctx) if fn[3] else 'unit'
